@@ -163,18 +163,19 @@ def run(args):
                 R.evaluations += 1
                 key = (mech, prefix, c["v"], c["dt"], c["x"], tuple(sorted(c["params"].items())))
                 R.count(f"{mech}:{c['tag']}")
+                have_model = True          # without a model value only the correspondence is skipped, never the Spec predicate
                 if mout[i] is None:
-                    R.disagree("model-unavailable", mech=mech, case=c); continue
-                if set(mout[i]) != set(out):
-                    R.disagree("key-set", mech=mech, impl=sorted(out), model=sorted(mout[i]), case=c); continue
+                    R.disagree("model-unavailable", mech=mech, case=c); have_model = False
+                elif set(mout[i]) != set(out):
+                    R.disagree("key-set", mech=mech, impl=sorted(out), model=sorted(mout[i]), case=c); have_model = False
                 for (sfx, gname, gk, gpk, sing) in gates:
                     k = f"{prefix}_{sfx}"
-                    yi, ym = float(out[k][i]), mout[i][k]
+                    yi, ym = float(out[k][i]), (mout[i][k] if have_model else None)
                     closed_v, xinf, tau = cf[(sfx, i)]
                     if yi != c["x"]:
                         R.distinct.add(key)
                     # correspondence (model vs implementation); NaN must coincide
-                    if not close(yi, ym, rel=1e-9, abs_=1e-13, maxulp=256):
+                    if have_model and not close(yi, ym, rel=1e-9, abs_=1e-13, maxulp=256):
                         # near the removable singularity both sides suffer the same cancellation but with
                         # different exp implementations: not comparable, recorded as diagnostic only
                         if c["tag"] == "near-singular":
